@@ -50,7 +50,7 @@ Qed.
 (* never a panic *)
 Lemma apply_rule_no_panic r q s : apply_rule r q <> Panic s.
 Proof.
-  unfold Rules.apply_rule. destruct (unpack_rule_total r) as [(d & ->)|->]; cbn [rbind]; [|discriminate].
+  unfold Rules.apply_rule. destruct (unpack_rule_total r) as [(d & Hd)|Hd]; rewrite Hd; cbn [rbind]; [|discriminate].
   repeat match goal with
          | |- context [if ?c then _ else _] => destruct c
          end; cbn [rbind]; discriminate.
@@ -63,6 +63,9 @@ Proof.
   destruct (apply_rule r q) as [q1|c|s']; cbn [rbind]; [apply IH | discriminate | intro E; inversion E; subst; eapply Hp; reflexivity].
 Qed.
 
+Lemma filter_nonnil_existsb (f : str -> bool) q : negb (is_nil (filter f q)) = existsb f q.
+Proof. induction q as [|x q IH]; [reflexivity|]. simpl. destruct (f x); [reflexivity | exact IH]. Qed.
+
 (* DISALLOW: fails exactly when a queued artifact matches the (cleaned) pattern;
    otherwise the queue is unchanged *)
 Lemma disallow_eq k p q : ci k "disallow" ->
@@ -70,9 +73,7 @@ Lemma disallow_eq k p q : ci k "disallow" ->
 Proof.
   intro Hk. assert (Hs : rule_shape [k; p] (SDisallow p)) by (constructor; exact Hk).
   rewrite (apply_rule_step gm meta arts cl dl ml _ _ q (unpack_rule_complete _ _ Hs)). cbn [step_of].
-  unfold queue_filter. rewrite sdiff_nil.
-  induction q as [|x q IH]; [reflexivity|]. simpl.
-  destruct (gm (go_clean p) x); [reflexivity|]. simpl. exact IH.
+  unfold queue_filter. rewrite sdiff_nil, filter_nonnil_existsb. reflexivity.
 Qed.
 
 (* REQUIRE: fails exactly when the literal file name is not queued (no pattern
@@ -117,21 +118,34 @@ Qed.
 
 End Cor.
 
+Lemma rbind_no_panic {A B} (x : res A) (f : A -> res B) :
+  (forall s, x <> Panic s) -> (forall a s, f a <> Panic s) -> forall s, rbind x f <> Panic s.
+Proof.
+  intros Hx Hf s. destruct x as [a|c|s']; cbn [rbind]; [apply Hf | discriminate |].
+  exfalso. eapply Hx. reflexivity.
+Qed.
+
+Lemma rbind_err_l {A B} (x : res A) (f : A -> res B) :
+  (exists c, x = Err c) -> exists c, rbind x f = Err c.
+Proof. intros (c & ->). exists c. reflexivity. Qed.
+
+Lemma rbind_err_r {A B} (x : res A) (f : A -> res B) :
+  (forall s, x <> Panic s) -> (forall a, exists c, f a = Err c) -> exists c, rbind x f = Err c.
+Proof.
+  intros Hx Hf. destruct x as [a|c|s]; cbn [rbind]; [apply Hf | eauto |]. exfalso. eapply Hx. reflexivity.
+Qed.
+
 Lemma verify_item_no_panic gm meta it s : verify_item gm meta it <> Panic s.
 Proof.
   destruct it as [[n em] ep]. unfold verify_item. destruct (alookup meta n) as [l|]; [|discriminate].
-  cbv zeta.
-  match goal with |- rbind ?x _ <> _ => pose proof (fun s => verify_rules_no_panic gm meta (ln_materials l) _ _ _ em (path_set (ln_materials l)) s) as H1; destruct x as [q1|c|s1] end;
-    cbn [rbind]; [|discriminate|intro E; inversion E; subst; eapply H1; reflexivity].
-  match goal with |- rbind ?x _ <> _ => pose proof (fun s => verify_rules_no_panic gm meta (ln_products l) _ _ _ ep (path_set (ln_products l)) s) as H2; destruct x as [q2|c|s2] end;
-    cbn [rbind]; [discriminate|discriminate|intro E; inversion E; subst; eapply H2; reflexivity].
+  cbv zeta. apply rbind_no_panic; [intro; apply verify_rules_no_panic|].
+  intros _ s'. apply rbind_no_panic; [intro; apply verify_rules_no_panic | discriminate].
 Qed.
 
 Lemma verify_artifacts_no_panic gm items meta s : verify_artifacts gm items meta <> Panic s.
 Proof.
-  induction items as [|it items IH]; [discriminate|]. cbn [verify_artifacts].
-  pose proof (verify_item_no_panic gm meta it) as Hp.
-  destruct (verify_item gm meta it) as [u|c|s']; cbn [rbind]; [exact IH | discriminate | intro E; inversion E; subst; eapply Hp; reflexivity].
+  revert s. induction items as [|it items IH]; [discriminate|]. cbn [verify_artifacts].
+  apply rbind_no_panic; [intro; apply verify_item_no_panic | intros _; exact IH].
 Qed.
 
 (* ... and therefore the whole verification: never silently ignored *)
@@ -140,17 +154,11 @@ Lemma malformed_rule_rejected gm items meta n em ep r :
   exists c, verify_artifacts gm items meta = Err c.
 Proof.
   intros Hin Hr Hbad. induction items as [|it items IH]; [contradiction|].
-  cbn [verify_artifacts]. pose proof (verify_item_no_panic gm meta it) as Hp.
-  destruct Hin as [->|Hin].
-  - clear IH. unfold verify_item. destruct (alookup meta n) as [l|]; [|cbn [rbind]; eauto]. cbv zeta.
-    match goal with |- context [rbind (rbind ?x _) _] =>
-      pose proof (fun s => verify_rules_no_panic gm meta (ln_materials l) _ _ _ em (path_set (ln_materials l)) s) as H1;
-      pose proof (fun H => verify_rules_malformed gm meta (ln_materials l) _ _ _ em r (path_set (ln_materials l)) H Hbad) as M1;
-      destruct x as [q1|c|s1] end; cbn [rbind]; [|eauto|exfalso; eapply H1; reflexivity].
-    destruct Hr as [Hr|Hr]; [destruct (M1 Hr) as (c & E); discriminate|].
-    match goal with |- context [rbind (rbind ?x _) _] =>
-      pose proof (fun s => verify_rules_no_panic gm meta (ln_products l) _ _ _ ep (path_set (ln_products l)) s) as H2;
-      pose proof (verify_rules_malformed gm meta (ln_products l) _ _ _ ep r (path_set (ln_products l)) Hr Hbad) as M2;
-      destruct x as [q2|c|s2] end; cbn [rbind]; [destruct M2 as (c & E); discriminate | eauto | exfalso; eapply H2; reflexivity].
-  - destruct (verify_item gm meta it) as [u|c|s']; cbn [rbind]; [apply IH, Hin | eauto | exfalso; eapply Hp; reflexivity].
+  cbn [verify_artifacts]. destruct Hin as [->|Hin].
+  - clear IH. apply rbind_err_l. unfold verify_item. destruct (alookup meta n) as [l|]; [|eauto]. cbv zeta.
+    destruct Hr as [Hr|Hr].
+    + apply rbind_err_l. eapply verify_rules_malformed; eassumption.
+    + apply rbind_err_r; [intro; apply verify_rules_no_panic|]. intros _.
+      apply rbind_err_l. eapply verify_rules_malformed; eassumption.
+  - apply rbind_err_r; [intro; apply verify_item_no_panic|]. intros _. apply IH, Hin.
 Qed.
